@@ -39,6 +39,26 @@ def _cases(seed, tier):
             sim.velocity_field[...] = r.normal(size=sim.velocity_field.shape) * float(10 ** r.uniform(-3, 2))
         prefac = float(r.uniform(0.05, 1.0))
         out.append((sim, real_t, dim, nu, cfl, prefac, kind, type(sim).__name__))
+    # edge of the viscosity range: positive viscosities at and below the velocity tolerance 10*eps of the precision,
+    # with a quiescent (or nearly quiescent) flow, where the diffusion limit is the binding one
+    e = 0
+    for real_t in (np.float32, np.float64):
+        tol = 10 * float(np.finfo(real_t).eps)
+        for mult in ((0.9, 0.25, 0.05) if tier == "quick" else (1.0, 0.9, 0.5, 0.25, 0.1, 0.05, 0.02)):
+            r = impl.rng(seed, "dt-edge", e)
+            dim = 2 + e % 2
+            nu = mult * tol
+            cfl = float(r.uniform(0.05, 0.5))
+            gs = (16, 20) if dim == 2 else (8, 10, 12)
+            if e % 3 == 1 and dim == 2:
+                sim = sps.UnboundedNavierStokesFlowSimulator2D(grid_size=gs, x_range=float(r.uniform(0.5, 4)), kinematic_viscosity=nu, cfl=cfl, real_t=real_t)
+            else:
+                sim = sps.PassiveTransportFlowSimulator(kinematic_viscosity=nu, grid_dim=dim, grid_size=gs, x_range=float(r.uniform(0.5, 4)), cfl=cfl, real_t=real_t)
+            kind = ["zero", "tiny"][e % 2]
+            if kind == "tiny":
+                sim.velocity_field[...] = (r.normal(size=sim.velocity_field.shape) * 1e-3 * tol).astype(real_t)
+            out.append((sim, real_t, dim, nu, cfl, float(r.uniform(0.05, 1.0)), kind, type(sim).__name__))
+            e += 1
     return out
 
 
@@ -72,7 +92,8 @@ def run(seed=0, tier="quick"):
         if not (np.isfinite(a) and abs(a - b) <= 64 * eps * max(abs(a), abs(b))):
             res.update(ok=False, detail=f"{m}: implementation {a!r}, model {b!r}", failing_case=m)
             return res
-    res["branches"] = {"nu=0": sum(1 for m in meta if m["nu"] == 0), "zero_velocity": sum(1 for m in meta if m["velocity"] == "zero")}
+    res["branches"] = {"nu=0": sum(1 for m in meta if m["nu"] == 0), "zero_velocity": sum(1 for m in meta if m["velocity"] == "zero"),
+                       "0<nu<=10eps": sum(1 for m in meta if 0 < m["nu"] <= 10 * float(np.finfo(np.dtype(m["dtype"])).eps))}
     return res
 
 
